@@ -33,13 +33,6 @@ def replaceByte (c : UInt8) (new : Bytes) : Bytes → Bytes
   | [] => []
   | a :: s => if a = c then new ++ replaceByte c new s else a :: replaceByte c new s
 
-/-- `strings.Replace(s, old, new, 1)` for a non-empty `old`: only the first occurrence -/
-def replaceFirst (old new : Bytes) : Bytes → Bytes
-  | [] => []
-  | a :: s =>
-    if hasPrefix (a :: s) old then new ++ (a :: s).drop old.length
-    else a :: replaceFirst old new s
-
 def isUpper (c : UInt8) : Bool := 65 ≤ c && c ≤ 90
 def isLower (c : UInt8) : Bool := 97 ≤ c && c ≤ 122
 def isDigit (c : UInt8) : Bool := 48 ≤ c && c ≤ 57
@@ -77,6 +70,12 @@ def join (sep : Bytes) : List Bytes → Bytes
   | [] => []
   | [a] => a
   | a :: b :: r => a ++ sep ++ join sep (b :: r)
+
+/-- the 25 keywords of Go: `token.IsKeyword(s)` is `goKeywords.contains s` -/
+def goKeywords : List Bytes :=
+  ["break", "default", "func", "interface", "select", "case", "defer", "go", "map", "struct", "chan", "else",
+   "goto", "package", "switch", "const", "fallthrough", "if", "range", "type", "continue", "for", "import",
+   "return", "var"].map str
 
 /-- `n` tab characters -/
 def tabs : Nat → Bytes
